@@ -330,3 +330,40 @@ def show_stmts(block, maxdepth=12):
         else:
             out.append(show(st, 0, maxdepth))
     return "; ".join(out)
+
+
+def variant_table(e, render=None):
+    """A value chosen by the variant of one scrutinee, whether written `if matches!(x, A | B) {p} else {q}`, `if !matches!(..)`, `if let A | B = x {p} else {q}`
+    or `match x { A | B => p, _ => q }`.  Returns (scrutinee text, {variant last segment: value text}, default value text or None); None when `e` is not such a decision."""
+    render = render or (lambda x: show(tail_expr(x) if isinstance(x, dict) and x.get("k") == "block" else x, maxdepth=8))
+    if not isinstance(e, dict):
+        return None
+    if e.get("k") == "block" and len(e.get("s", [])) == 1:
+        return variant_table(tail_expr(e), render)
+    if e.get("k") == "match":
+        table, default = {}, None
+        for arm in e["arms"]:
+            if arm.get("guard") is not None:
+                return None
+            for alt in pat_alts(arm["pat"]):
+                h = pat_head(alt)
+                if h == "_":
+                    default = render(arm["body"])
+                else:
+                    table[last_seg(h)] = render(arm["body"])
+        return show(e["e"]), table, default
+    if e.get("k") == "if" and e.get("e") is not None:
+        c, neg = e["c"], False
+        while c.get("k") == "un" and c["op"] == "!":
+            c, neg = c["e"], not neg
+        if c.get("k") == "paren":
+            c = c["e"]
+        if c.get("k") == "macro" and c["n"] == "matches" and c.get("guard") is None:
+            scrut, pat = show(c["a"][0]), c["pat"]
+        elif c.get("k") == "let" and not neg:
+            scrut, pat = show(c["e"]), c["pat"]
+        else:
+            return None
+        yes, no = (e["e"], e["t"]) if neg else (e["t"], e["e"])
+        return scrut, {last_seg(pat_head(a)): render(yes) for a in pat_alts(pat)}, render(no)
+    return None
